@@ -176,6 +176,12 @@ func concInstances(seed int64) []instance {
 		mkWriter("xz-writer-raw-wrapped", func(w io.Writer) (wcl, error) {
 			return XZCfg{LC: 3, PB: 2, DictCap: 65536, BufSize: 4096, Check: 1}.lib().NewWriter(w)
 		}, rawWrapped, false),
+		// readers that fail in the middle of the data (input cut inside a block / a chunk), with the same
+		// window sizes as the healthy readers of the catalogue: whatever a failed reader leaves behind
+		// must not reach the next one
+		mkReader("xz-reader-truncated", func(r io.Reader) (io.Reader, error) { return xz.NewReader(r) }, xzData[:len(xzData)*2/3], len(text)),
+		mkReader("lzma2-reader-truncated", func(r io.Reader) (io.Reader, error) { return lzma.Reader2Config{DictCap: 65536}.NewReader2(r) }, l2buf.Bytes()[:l2buf.Len()/2], len(rnd)),
+		mkReader("lzma-reader-truncated", func(r io.Reader) (io.Reader, error) { return lzma.NewReader(r) }, albuf.Bytes()[:albuf.Len()/2], len(text)),
 		mkReader("xz-reader-damaged-block2", func(r io.Reader) (io.Reader, error) { return xz.NewReader(r) }, damage(1), len(text)),
 		mkReader("xz-reader-damaged-block5", func(r io.Reader) (io.Reader, error) { return xz.NewReader(r) }, damage(4), len(text)),
 		mkWriter("xz-writer-crc32-blocks", func(w io.Writer) (wcl, error) {
